@@ -35,10 +35,16 @@ TSound(x) ==
         (i # j /\ TLive(x, i) /\ TLive(x, j)) => (TEnd(x, i) <= x.off[j] \/ TEnd(x, j) <= x.off[i])
   /\ \A i \in Slots : ~TLive(x, i) => x.sz[i] = 0
 \* the explored family: free slots point at or beyond the end of every live range, inside the file
+\* (or, for a slot that is not the first unused one, at the end of the table)
 \* @type: ({ty: Int -> Int, off: Int -> Int, sz: Int -> Int, flen: Int}) => Bool;
 TFamily(x) ==
-  /\ \A i \in Slots : \A j \in Slots : (~TLive(x, i) /\ TLive(x, j)) => TEnd(x, j) <= x.off[i]
-  /\ \A i \in Slots : ~TLive(x, i) => (TE <= x.off[i] /\ x.off[i] <= x.flen)
+  /\ \A i \in Slots : ~TLive(x, i) =>
+        \/ /\ \A j \in Slots : TLive(x, j) => TEnd(x, j) <= x.off[i]
+           /\ TE <= x.off[i] /\ x.off[i] <= x.flen
+        \* a spare unused slot (not the first one) may still carry the end of the table: nothing ever
+        \* reads it, the next add re-points it
+        \/ /\ x.off[i] = TE
+           /\ \E j \in Slots : j < i /\ ~TLive(x, j)
   /\ x.flen >= TE
 \* @type: ({ty: Int -> Int, off: Int -> Int, sz: Int -> Int, flen: Int}) => Bool;
 TUnique(x) == \A i \in Slots : \A j \in Slots : (TLive(x, i) /\ TLive(x, j) /\ x.ty[i] = x.ty[j]) => i = j
